@@ -46,6 +46,9 @@ pub fn install_panic_hook() {
         } else {
             "<non-string panic>".to_string()
         };
+        if std::env::var("VERIF_DEBUG").is_ok() {
+            eprintln!("panic at {}: {}", loc, msg);
+        }
         LAST_PANIC.with(|p| *p.borrow_mut() = Some((loc, msg)));
     }));
 }
